@@ -18,14 +18,14 @@ Proof.
   - apply IH, Hl.
 Qed.
 
-Theorem display_dsections s r tr :
-  dsh_tbl r = true -> t_dotted r = false -> t_decor r = decor_default -> t_position r = None ->
+Theorem display_dsections Pv s r tr :
+  dsh_tbl Pv r = true -> t_dotted r = false -> t_decor r = decor_default -> t_position r = None ->
   Forall (fun e => dvis e = true -> t_position (etbl e) <> None /\ decor_some (t_decor (etbl e))) (sub_ents (t_items r) []) ->
   display_document (ttbl s r) tr
   = concat (map snd (stable_sort (map (fun e => (epos e, detxt s e)) ((r, [], false) :: filter dvis (sub_ents (t_items r) [])))))
     ++ raw_encode tr [].
 Proof.
-  intros Hs Hnd Hd Hp Hw. set (rest := sub_ents (t_items r) []) in *. pose proof (sub_ents_dsh r Hs) as Hrest. fold rest in Hrest.
+  intros Hs Hnd Hd Hp Hw. set (rest := sub_ents (t_items r) []) in *. pose proof (sub_ents_dsh Pv r Hs) as Hrest. fold rest in Hrest.
   unfold display_document. rewrite (nested_tables_ents _ _ _ _ (Nat.lt_succ_diag_r _)), ents_ttbl_root, ents_eq, Hnd. fold rest. cbn [app].
   rewrite assign_positions_map. cbn [assign_positions]. rewrite Hp.
   set (root := (r, @nil key, false)). set (L0 := (0%N, root) :: assign_positions 0 rest).
@@ -39,7 +39,7 @@ Proof.
   rewrite (visit_tables_filter (tent s) (fun x => drvis (snd x))).
   2:{ intros q e b0 Hin Hv. cbn [snd] in Hv. destruct (HL0 q e Hin) as [-> | He]; [discriminate Hv|].
       rewrite Forall_forall in Hrest. destruct (Hrest e He) as [H1 H2]. destruct e as [[t p] a]. unfold edsh, epath in *. cbn [fst snd] in *.
-      cbn [tent]. apply dvisit_invisible; [exact H1|exact H2|]. unfold drvis, epath in Hv. cbn [fst snd] in Hv. destruct p; [congruence|exact Hv]. }
+      cbn [tent]. apply (dvisit_invisible Pv); [exact H1|exact H2|]. unfold drvis, epath in Hv. cbn [fst snd] in Hv. destruct p; [congruence|exact Hv]. }
   rewrite stable_sort_filter.
   assert (EL1 : filter (fun x : N * entry => drvis (snd x)) L0 = (0%N, root) :: map (fun e => (epos e, e)) (filter dvis rest)).
   { unfold L0. cbn [filter snd]. change (drvis root) with true. cbv iota. f_equal.
@@ -53,9 +53,9 @@ Proof.
     right. apply in_map_iff in H as (e0 & E0 & H). injection E0 as _ ->. apply filter_In in H. exact H. }
   rewrite (visit_tables_concat (tent s) (detxt s)).
   2:{ intros q e b0 Hin. destruct (HL1 q e Hin) as [-> | [He Hv]].
-      - cbn [root tent]. apply (dvisit_visible s r [] false b0 Hs). left. reflexivity.
+      - cbn [root tent]. apply (dvisit_visible Pv s r [] false b0 Hs). left. reflexivity.
       - rewrite Forall_forall in Hrest, Hw. destruct (Hrest e He) as [H1 H2]. destruct (Hw e He Hv) as [_ H4]. destruct e as [[t p] a].
-        unfold edsh, epath, etbl in *. cbn [fst snd] in *. cbn [tent]. apply dvisit_visible; [exact H1|]. right. split; assumption. }
+        unfold edsh, epath, etbl in *. cbn [fst snd] in *. cbn [tent]. apply (dvisit_visible Pv); [exact H1|]. right. split; assumption. }
   transitivity (concat (map snd (map (on_snd (detxt s)) (stable_sort L1)))); [rewrite map_map; reflexivity|].
   rewrite stable_sort_map. do 3 f_equal. unfold L1. cbn [map]. f_equal.
   - unfold on_snd, epos, etbl, root. cbn [fst snd]. rewrite Hp. reflexivity.
